@@ -130,6 +130,14 @@ type Enc struct {
 	iterInfo     map[ssa.Value]*iterState
 	disabledAuto map[string]bool
 	retWit       []WitnessTerm
+	frameNilOK   bool
+	curDeferred  bool
+	stableFV     map[*ssa.FreeVar]*Val
+	allocVal     map[*ssa.Alloc]*Val
+	allocRefs    map[string]bool
+	chanRoom     map[string]int
+	published    map[string]bool
+	stableAlloc  map[*ssa.Alloc]bool
 	liveIn       map[*ssa.BasicBlock][]string
 	ainfo        []assertInfo
 	isConstDecl  map[string]bool
@@ -662,6 +670,11 @@ func (e *Enc) typeInvFormula(st *State, v *Val) string {
 				if st != nil {
 					fs = append(fs, "(<= "+ref+" "+st.alloc+")")
 				}
+			}
+		case *types.Interface:
+			// the object behind an interface value exists already
+			if st != nil {
+				fs = append(fs, "(<= (ifaceobj "+t+") "+st.alloc+")")
 			}
 		case *types.Map, *types.Chan, *types.Signature:
 			fs = append(fs, "(>= "+t+" 0)")
